@@ -242,7 +242,7 @@ func verifSortedKeys[M ~map[K]V, K comparable, V any](m M, site int) []K {
 		die("%v", err)
 	}
 	ov := map[string]any{"Replace": map[string]string{
-		target:                                  rw,
+		target:                                   rw,
 		filepath.Join(dir, "verif_order_c45.go"): hp,
 	}}
 	b, _ := json.MarshalIndent(ov, "", " ")
